@@ -213,7 +213,8 @@ impl Server {
                 vec![]
             };
             world::ev(EvKind::Note(format!("page-cookie {token} {}", hex(&ck))));
-            ctrls.push(Ctl { oid: PAGED_OID.as_bytes().to_vec(), crit: None, val: Some(encode_paged_value(0, &ck)) });
+            let at = pm.paged_ctrl_pos.unwrap_or(usize::MAX).min(ctrls.len());
+            ctrls.insert(at, Ctl { oid: PAGED_OID.as_bytes().to_vec(), crit: None, val: Some(encode_paged_value(0, &ck)) });
         } else {
             world::ev(EvKind::Note(format!("page-cookie {token} -")));
         }
